@@ -958,6 +958,58 @@ def r6_read_order(chk, quick):
                 break
 
 
+def r6_result_kept(chk, quick):
+    """a screen the caller still HOLDS is not changed by the next screen of the same size (another seed, unseeded, the other function, another
+    instance): sizes of 256 points across and more, where an implementation may keep a work array per shape (seeded change C06-K handed
+    out that array itself for transforms of 256 x 256 elements or more: the held screen silently became the next one — caught in the
+    thorough tier only, whose batteries reach those sizes)."""
+    from aotools.turbulence import phasescreen as ps, infinitephasescreen as ips
+    rng = chk.rng
+    for N in ([256, rng.choice([260, 300, 320])] if quick else [256, 257, 260, 300, 320, 384, 512]):
+        r0, delta, L0, l0 = rng.choice([0.1, 0.16]), rng.choice([0.02, 0.05]), rng.choice([20., 50.]), 0.01
+        s1, s2 = rng.randint(0, 10 ** 6), rng.randint(0, 10 ** 6)
+        rep = {"N": N, "r0": r0, "delta": delta, "L0": L0, "l0": l0, "seeds": [s1, s2]}
+        chk.count("r6:result-kept:finite")
+        chk.oracle_cases += 1
+        chk.case(("r6-result-kept", "finite", N, s1, s2))
+        for first, name in ((ps.ft_phase_screen, "ft_phase_screen"), (ps.ft_sh_phase_screen, "ft_sh_phase_screen")):
+            try:
+                a = first(r0, N, delta, L0, l0, seed=s1)
+                keep = numpy.array(a, copy=True)
+                others = [ps.ft_phase_screen(r0 * 1.5, N, delta, L0, l0, seed=s2), ps.ft_sh_phase_screen(r0, N, delta, L0, l0, seed=s2),
+                          ps.ft_phase_screen(r0, N, delta, L0, l0)]
+            except Exception as ex:
+                chk.fail("raises:r6:result-kept:%s" % type(ex).__name__, "%s raised %r at N=%d" % (name, ex, N), rep)
+                break
+            if not numpy.array_equal(numpy.asarray(a), keep) or any(numpy.shares_memory(numpy.asarray(a), numpy.asarray(o)) for o in others):
+                chk.fail("repro:r6:result-kept:%s" % name, "%s(r0=%r, N=%d, delta=%r, L0=%r, l0=%r, seed=%d): the screen the caller holds changed (or "
+                         "shares memory with a later result) after three more screens of the same size were made" % (name, r0, N, delta, L0, l0, s1), rep)
+                break
+    # infinite screens: the Fried variant at nx = 65 transforms a 260 x 260 initial screen
+    for cls, nx in ((ips.PhaseScreenKolmogorov, 65),) if quick else ((ips.PhaseScreenKolmogorov, 65), (ips.PhaseScreenVonKarman, 256)):
+        s1, s2 = rng.randint(0, 10 ** 6), rng.randint(0, 10 ** 6)
+        rep = {"class": cls.__name__, "nx": nx, "seeds": [s1, s2]}
+        chk.count("r6:result-kept:infinite")
+        chk.oracle_cases += 1
+        chk.case(("r6-result-kept", cls.__name__, nx, s1, s2))
+        try:
+            a = cls(nx, 0.05, 0.16, 25., random_seed=s1)
+            solo = cls(nx, 0.05, 0.16, 25., random_seed=s1)
+            solo.add_row(); solo.add_row()
+            want = numpy.array(solo.scrn, copy=True)
+            a2 = cls(nx, 0.05, 0.16, 25., random_seed=s1)     # same seed: built, then ANOTHER instance of the same size before its first row
+            b = cls(nx, 0.05, 0.2, 25., random_seed=s2)
+            a2.add_row(); b.add_row(); a2.add_row()
+            got = numpy.array(a2.scrn, copy=True)
+        except Exception as ex:
+            chk.fail("raises:r6:result-kept:%s" % type(ex).__name__, "%s(nx=%d) raised %r" % (cls.__name__, nx, ex), rep)
+            continue
+        if got.shape != want.shape or got.tobytes() != want.tobytes():
+            chk.fail("repro:r6:result-kept:%s" % cls.__name__, "%s(nx=%d, seed=%d): creating another instance of the same size (seed %d) between "
+                     "construction and the first add_row changed the screen (max |difference| %.3g after two rows)"
+                     % (cls.__name__, nx, s1, s2, float(numpy.max(numpy.abs(got - want))) if got.shape == want.shape else float("nan")), rep)
+
+
 def r5_caller_mutation(chk, quick):
     """the caller changes a returned screen IN PLACE (scrn *= wavelength / 2 pi; scrn[:] = 0) and then asks for the same seed and
     parameters again (finite: the same call; infinite: a new instance): the new screen is the one of the first call"""
@@ -1349,6 +1401,7 @@ def run(chk):
     r5_caller_mutation(chk, quick)
     r5_forked_unseeded(chk, quick)
     r6_read_order(chk, quick)
+    r6_result_kept(chk, quick)
     # correspondence of the touch sets
     try:
         ans = common.run_driver(lines, "C06")
